@@ -19,7 +19,8 @@ META = {
     "text": "For each of the 16 add_constraint_G / add_constraint_eq_G methods, every operand tuple up to total arity 3 (quick) / 4 (thorough) (one more over a reduced alphabet) drawn with "
             "repetition from {4 labels, NOT(a), AND(b,c), OR(a,d), XOR(b,d), a PUBO dict, the constant expressions 1 and 0}, lam in {1, 2.5, 0.5}: the terms "
             "added to an empty PCBO are tabulated over all 16 assignments and must be 0 where the gate relation holds and >= lam elsewhere, mention no "
-            "ancilla, and is_solution_valid must agree with the relation.",
+            "ancilla, and is_solution_valid must agree with the relation. Histories: <=1 (quick) / <=2 (thorough) constraints from an 8-call menu on a model A, a model B derived from A "
+            "(copy, PCBO(A), A+0, 0+A, A-0, A*1), then <=1 / <=2 further constraints each on A or B; each model's penalty table and is_solution_valid must reflect exactly the constraints of its own lineage.",
     "note": "Bounded: 4 variables, arity <= 3/4, operand alphabet of 12. Reference gates are python booleans on reference tables.",
 }
 
@@ -64,7 +65,97 @@ def gen_cases(tier):
                 continue
             for combo in itertools.product(REDUCED, repeat=total):
                 yield {"gate": g, "eq": eq, "operands": list(combo), "scheme": schemes[0]}
+        # histories: constraints added to a model that already holds some, and to models derived from it (copy / PCBO(H) / arithmetic)
+        pre_max, post_max = (1, 1) if tier == "quick" else (2, 2)
+        M = range(len(SEQ_MENU))
+        for npre in range(0, pre_max + 1):
+            for pre in itertools.product(M, repeat=npre):
+                for derive in DERIVE:
+                    for npost in range(1, post_max + 1):
+                        for post in itertools.product(M, repeat=npost):
+                            for targets in itertools.product((0, 1), repeat=npost):
+                                yield {"part": "seq", "pre": list(pre), "derive": derive, "post": [list(x) for x in zip(post, targets)]}
     return it
+
+
+# (gate, eq, operand label indices): one call per family, over 4 labels
+SEQ_MENU = [("OR", False, (0, 1)), ("AND", True, (2, 0, 1)), ("XOR", False, (0, 2)), ("NOT", False, (3,)), ("XOR", True, (0, 1, 2)),
+            ("NAND", False, (1, 3)), ("OR", True, (3, 0, 1)), ("BUFFER", True, (2, 3))]
+DERIVE = ["copy", "ctor", "add0", "radd0", "sub0", "mul1"]
+
+
+def check_seq(case, st):
+    """Two models: A gets the `pre` constraints, B is derived from A, then each `post` constraint goes to A (0) or B (1).
+    Each model must penalise / report exactly the constraints added along its own lineage."""
+    qv = paths.import_qubovert()
+    labels = gen.labels_for("str", NV)
+    b, _ = rp.bits(NV)
+
+    def rel(i):
+        g, eq, idx = SEQ_MENU[i]
+        refs = [b[j].astype(bool) for j in idx]
+        return (refs[0] == ref_gate(g, refs[1:])) if eq else ref_gate(g, refs)
+
+    def apply(H, i):
+        g, eq, idx = SEQ_MENU[i]
+        return call(getattr(H, "add_constraint_%s%s" % ("eq_" if eq else "", g)), *[labels[j] for j in idx], lam=1)[0]
+    st.nontrivial += 1
+
+    def v(kind, msg):
+        st.violation("seq|%s|%s" % (kind, case["derive"]), case,
+                     "C06 A = PCBO() + %s; B = %s(A); then %s: %s" % ([SEQ_MENU[i] for i in case["pre"]], case["derive"],
+                                                                    [("A" if t == 0 else "B", SEQ_MENU[i]) for i, t in case["post"]], msg))
+    A = qv.PCBO()
+    for i in case["pre"]:
+        r = apply(A, i)
+        st.transitions += 1
+        if isinstance(r, Raised):
+            v("raises-" + r.kind, "raised %r" % r.exc)
+            return
+    d = case["derive"]
+    r, _w = call({"copy": lambda: A.copy(), "ctor": lambda: qv.PCBO(A), "add0": lambda: A + 0, "radd0": lambda: 0 + A,
+                  "sub0": lambda: A - 0, "mul1": lambda: A * 1}[d])
+    st.transitions += 1
+    if isinstance(r, Raised):
+        v("raises-" + r.kind, "deriving raised %r" % r.exc)
+        return
+    B = r
+    if B is A or type(B) is not qv.PCBO:
+        return      # C05 / C19 territory: nothing to compare here
+    lineage = [list(case["pre"]), list(case["pre"])]
+    models = [A, B]
+    for i, t in case["post"]:
+        r = apply(models[t], i)
+        st.transitions += 1
+        st.traces += 1
+        if isinstance(r, Raised):
+            v("raises-" + r.kind, "raised %r" % r.exc)
+            return
+        lineage[t].append(i)
+    for name, H, lin in (("A", A, lineage[0]), ("B", B, lineage[1])):
+        holds = np.ones(1 << NV, dtype=bool)
+        for i in lin:
+            holds &= rel(i)
+        used = {l for k in H for l in k}
+        if not used <= set(labels) or H.num_ancillas != 0:
+            v("foreign-variable", "%s mentions %r, num_ancillas %r" % (name, sorted(used - set(labels), key=repr), H.num_ancillas))
+            continue
+        F = rp.tt(H, labels, False)
+        bad0 = np.nonzero(holds & (np.abs(F) > 1e-9))[0]
+        bad1 = np.nonzero(~holds & (F < 1 - 1e-9))[0]
+        if len(bad0):
+            a = int(bad0[0])
+            v("nonzero-on-satisfying", "all constraints of %s hold at %r but its penalty = %r" % (name, rp.assignment(a, labels, False), F[a]))
+        if len(bad1):
+            a = int(bad1[0])
+            v("below-lam-on-violating", "a constraint of %s fails at %r but its penalty = %r < lam" % (name, rp.assignment(a, labels, False), F[a]))
+        for a in range(1 << NV):
+            x = rp.assignment(a, labels, False)
+            rv, _w = call(H.is_solution_valid, x)
+            if isinstance(rv, Raised) or bool(rv) != bool(holds[a]):
+                v("is_solution_valid", "%s.is_solution_valid(%r) = %r, but the constraints added to %s (%s) are %s there" % (
+                    name, x, rv, name, [SEQ_MENU[i] for i in lin], "satisfied" if holds[a] else "violated"))
+                break
 
 
 def ref_operand(od, b):
@@ -124,6 +215,8 @@ def ref_gate(g, vals):
 
 
 def check(case, st):
+    if case.get("part") == "seq":
+        return check_seq(case, st)
     qv = paths.import_qubovert()
     labels = gen.labels_for(case["scheme"], NV)
     b, _ = rp.bits(NV)
@@ -181,12 +274,17 @@ def check(case, st):
 
 def run(ctx):
     ctx.bounds = {"variables": NV, "max_total_arity": "3 over the full alphabet + 4 over the first 6 operands" if ctx.quick else "4 over the full alphabet + 5 over the first 6 operands", "operand_alphabet": OPERANDS, "lams": LAMS,
-                  "schemes": ("str", "gap", "tuple") if ctx.quick else ("str", "gap", "tuple", "mixed"), "methods": 16}
+                  "schemes": ("str", "gap", "tuple") if ctx.quick else ("str", "gap", "tuple", "mixed"), "methods": 16,
+                  "histories": {"menu": [list(map(str, m)) for m in SEQ_MENU], "derivations": DERIVE,
+                                "constraints_before_derivation": "<= %d" % (1 if ctx.quick else 2), "constraints_after": "<= %d, each on either model" % (1 if ctx.quick else 2)}}
     ctx.rule = "case = (method, operand tuple, label scheme), each with both lam values; non-trivial = at least one operand is an expression, not a label"
     explore_cases(ctx, gen_cases(ctx.tier), check, label="C06")
 
 
 def replay(case):
     st = Stats()
-    check({k: case[k] for k in ("gate", "eq", "operands", "scheme")}, st)
+    if case.get("part") == "seq":
+        check_seq({k: case[k] for k in ("part", "pre", "derive", "post")}, st)
+    else:
+        check({k: case[k] for k in ("gate", "eq", "operands", "scheme")}, st)
     return [(s, m) for s, c, m in st.viol]
